@@ -10,6 +10,17 @@ COMMON_NOTE = ("Trusted base: pyvc engine (AST transform T1-T3 of the real sourc
                "lift to C), A3 (integer powers), A4 (path forking via z3), A5 (numpy shim contracts, listed per run in evidence.trusted_base). ")
 
 CLAIMED = {
+    "C15": dict(
+        category="proof",
+        text=("Every expanded coupling solution is executed in a Laurent-series ring in the reference coupling with u = beta0*ref*t held O(1): value at "
+              "the reference point is the reference, and the coefficients ref^2..ref^(n+1) of the RGE residual da/dt + sum beta_k a^(k+2) vanish (orders "
+              "1-3; for order 4 the top coefficient is a recorded known finding); LO: da/dt = -beta0 a^2 exactly and negative (z3); fixed- and "
+              "running-alpha_em wrappers for nf 3-6 x orders (1-4,0-2): literature beta vectors, beta0 shift, t = ln(to/from), coupled RGE through second "
+              "order; the right-hand sides and integration spans handed to solve_ivp by the exact methods equal the specification (solve_ivp assumed)."),
+        note=COMMON_NOTE + "Lemma: uniqueness of the RGE solution. Assumed: scipy.integrate.solve_ivp. Known finding F07 (expanded_n3lo) is reported, not claimed.",
+        technique="contract-based deductive verification: execution in a Laurent-series ring + formal differentiation + exact normal form; z3 for monotonicity",
+        design_ref="DESIGN.md section 2, C15",
+    ),
     "C16": dict(
         category="proof",
         text=("(i) decoupling constants c20, c30 (POLE, MSBAR) equal the Chetyrkin-Kniehl-Steinhauser values (exact forms in zeta2, zeta3, ln2; decimals to "
